@@ -126,12 +126,17 @@ Definition pos_j (l c : Z) : json := JObj [("line", JInt l); ("character", JInt 
 Example C15_deep_example :
   xt Sg NLm declared_names (PyCls "Range")
      (JObj [("start", pos_j 1 2); ("end", pos_j 3 4)])
-     (JObj ([("start", JObj ([("line", JInt 1); ("character", JInt 2)] ++ [("zzInner", JArr [JNull])])); ("end", pos_j 3 4)] ++ [("zzOuter", JObj [("k", JInt 1)])])).
+     (JObj [("zzFirst", JBool true); ("start", JObj [("line", JInt 1); ("zzInner", JArr [JNull]); ("character", JInt 2)]); ("zzOuter", JObj [("k", JInt 1)]); ("end", pos_j 3 4)]).
 Proof.
-  apply (xt_cls Sg NLm declared_names "Range" range_fs); [vm_compute; reflexivity | | intros k [<-|[]]; vm_compute; reflexivity].
+  apply (xt_cls Sg NLm declared_names "Range" range_fs); [vm_compute; reflexivity|].
+  match goal with |- Forall2 _ _ (kn _ ?m) =>
+    assert (K : kn declared_names m = [("start", JObj [("line", JInt 1); ("zzInner", JArr [JNull]); ("character", JInt 2)]); ("end", pos_j 3 4)]) by (vm_compute; reflexivity);
+    rewrite K; clear K end.
   constructor; [|constructor; [|constructor]].
   - split; [reflexivity|]. intros f If Ef. vm_compute in If. destruct If as [<-|[<-|[]]]; try discriminate Ef. cbn [ftype snd].
-    apply (xt_cls Sg NLm declared_names "Position" pos_fs); [vm_compute; reflexivity | | intros k [<-|[]]; vm_compute; reflexivity].
+    apply (xt_cls Sg NLm declared_names "Position" pos_fs); [vm_compute; reflexivity|].
+    match goal with |- Forall2 _ _ (kn _ ?m) =>
+      assert (K : kn declared_names m = [("line", JInt 1); ("character", JInt 2)]) by (vm_compute; reflexivity); rewrite K; clear K end.
     repeat constructor; intros; apply xt_refl.
   - split; [reflexivity|]. intros; apply xt_refl.
 Qed.
